@@ -263,6 +263,13 @@ func sanitizeName(name string) string {
 	if len(result) == 0 {
 		return "unnamed"
 	}
+	// Every identifier starting with "gl_" is reserved in GLSL (declaring one is a
+	// compile-time error), so appending '_' does not help. Rust naga's Namer prefixes
+	// names that start with a reserved prefix with "gen_". The bare name "gl" is included
+	// because its collision-suffixed forms are gl_1, gl_2, ...
+	if s := string(result); s == "gl" || strings.HasPrefix(s, "gl_") {
+		return "gen_" + s
+	}
 	return string(result)
 }
 
